@@ -112,6 +112,7 @@ var corpus = [][]string{
 	0: { // css
 		"a{color:red;margin:0 auto}", "@media screen and (min-width:100px){.x>y~z{top:-1.5e3px}}", "/* c */ @import url(\"x.css\"); b{}", ".a:not(.b)::before{content:\"\\201C\";background:url( x.png )}",
 		"@font-face{font-family:x;src:url(a)}", "color:#fff;width:calc(1px + 2%)", "a{b:c!important;--v:{x}}", "@charset \"utf-8\";<!-- x --> u+0-7F", "x{y:1e}", "@supports (display:grid) and (not (display:inline-grid)){a{b:c}}",
+		"a{--x:1)}b{--y:2}", "--y:];--z:{a(b)}", "a{--v: calc(1px + 2px); --w:[a b]}c{--u:(}", ":root{--main-bg:#fff;--accent: rgb(1 2 3 / 50%);--empty:;}",
 		"a{\n  color : RED ;\n  background: URL(data:image/png;base64,AAAA) no-repeat\n}\n\n.b { margin:-0.5em 1E3px +.5% }", "h1,h2>h3+h4{font:12px/1.5 \"Helvetica Neue\",sans-serif}", "@keyframes k{from{left:0}50.5%{left:1px}to{left:2px}}",
 		".é\\26 x{content:'\\'';width:1e+2px;u:U+26??}", "@page :first{margin:1in}@namespace svg url(http://www.w3.org/2000/svg);", "a[href^='http'],b[c|=d i]{e:f}", "@media(max-width:10px){@media print{a{b:c}}}", "div{grid-template-areas:\"a b\"\n\"c d\";}", "a{b:c;;d:e}}f{g:h", "x{color:rgb(1 2 3 / 50%);w:min(1px,2em)}", "*color:red;*zoom:1", "a{*color:red;_height:1px}", "* color:red;*é:1",
 	},
